@@ -132,9 +132,13 @@ theorem deleteLoop_congr (fuel : Nat) (r : Bool) : ∀ (k : Nat) (toks toks2 : L
         obtain ⟨root, res⟩ := x
         simp only
         split
-        · cases delThrough root res.parent res.nameIdx with
+        · cases delPlace fuel root res with
           | error e => rfl
-          | ok root' => exact deleteLoop_congr fuel r k toks toks2 root' false hk
+          | ok res' =>
+            simp only
+            cases delThrough root res'.parent res'.nameIdx with
+            | error e => rfl
+            | ok root' => exact deleteLoop_congr fuel r k toks toks2 root' false hk
         · exact deleteLoop_congr fuel r k toks toks2 root false hk
 
 theorem deleteLoop_init (fuel : Nat) (r : Bool) (init : List Str) (last : Str) (cur : Val) (f : Bool) :
@@ -214,8 +218,11 @@ theorem deleteLoop_prune (fuel : Nat) : ∀ (n : Nat) (toks : List Str) (cur : V
       by_cases he : isEmptyDict c = true
       · obtain ⟨cur', hdel⟩ := delAt_isSome' (q0 ++ r) cur c hqne hs.getAt
         have hdt := delThrough_found cur (q0 ++ r) c res cur' hfound hdel
+        have hdp : delPlace fuel cur res = .ok res := by
+          obtain ⟨_, _, pp, _, _, _, _, hpar, _⟩ := hfound
+          exact delPlace_at _ _ _ _ hpar
         obtain ⟨⟨c0', hsp'⟩, hmid⟩ := spells_after_delete h1 h2 hdel
-        simp only [he, if_true, hdt]
+        simp only [he, if_true, hdp, hdt]
         rw [deleteLoop_init, deleteLoop_prune fuel n init cur' q0 c0' hil hsp' hfi]
         have hstep : pruneStep cur (q0 ++ r) = cur' := pruneStep_hit hs.getAt he hdel
         rcases spells_single_mid h2 with hr1 | ⟨s1, s2, cls, xs, rfl, _⟩
@@ -252,12 +259,15 @@ theorem deleteLoop_rec_spelled (fuel : Nat) (toks : List Str) (t : Val) (p : Pos
   have hfi : fuel ≥ 2 * init.length := by simp at hf; omega
   obtain ⟨res, hres, hfound⟩ := find_spells t true hs hne fuel [] slash true rfl hf
   have hdt := delThrough_found t (q0 ++ r) c res t' hfound hdel
+  have hdp : delPlace fuel t res = .ok res := by
+    obtain ⟨_, _, pp, _, _, _, _, hpar, _⟩ := hfound
+    exact delPlace_at _ _ _ _ hpar
   obtain ⟨⟨c0', hsp'⟩, hmid⟩ := spells_after_delete h1 h2 hdel
   have hlen : (init ++ [last]).length = init.length + 1 := by simp
   have htake : (init ++ [last]).take (init.length + 1) = init ++ [last] := by
     rw [List.take_of_length_le (by simp)]
   rw [hlen, deleteLoop, htake, hres]
-  simp only [Bool.true_or, if_true, hdt]
+  simp only [Bool.true_or, if_true, hdp, hdt]
   rw [deleteLoop_init, deleteLoop_prune fuel init.length init t' q0 c0' rfl hsp' hfi]
   rcases spells_single_mid h2 with hr1 | ⟨s1, s2, cls, xs, rfl, _⟩
   · obtain ⟨s, rfl⟩ : ∃ s, r = [s] := by
